@@ -4,8 +4,8 @@ import numpy as np
 from harness import common as C
 from harness import layouts as L
 
-ANCHORS = []
-MODELS = ["NdCase"]
+ANCHORS = ["T7pipe"]
+MODELS = ["NdCase", "Pipe", "PipeCase"]
 RULE = ("layouts enumerated: container (DataArray/Dataset/list) x 1..3 sample dims x 1..3 feature dims x dimension orders x index kind per "
         "dimension (ascending, unsorted, string, datetime, MultiIndex) x Dataset variables with equal/different dimension sets x extra "
         "non-index coordinates x default/custom sample/feature names, sizes 2-3 per dimension, unique integer-valued entries so every "
